@@ -51,11 +51,12 @@ func retryGraph(c schedCase, steps []dag.Step) (*scheduler.ExecutionGraph, error
 }
 
 // monitorRetry: the property C10 itself, read independently of the Lean model.
-//   T := steps recorded failed / canceled / running / not started, plus everything downstream of one
-//   - the retry terminates
-//   - a step outside T is never executed and keeps its recorded state
-//   - a step in T is re-executed as soon as its dependencies let it (never left with its stale label)
-//   - every start happens after all dependencies finished (dependency order)
+//
+//	T := steps recorded failed / canceled / running / not started, plus everything downstream of one
+//	- the retry terminates
+//	- a step outside T is never executed and keeps its recorded state
+//	- a step in T is re-executed as soon as its dependencies let it (never left with its stale label)
+//	- every start happens after all dependencies finished (dependency order)
 func monitorRetry(c schedCase, r *result, stopped bool) []string {
 	var v []string
 	add := func(f string, a ...any) { v = append(v, fmt.Sprintf(f, a...)) }
